@@ -354,6 +354,7 @@ class OwnershipFamily(common.Family):
 
 # --------------------------------------------------------------------------
 class PoolOpsFamily(common.Family):
+  pct_ok = False   # timed oracles: see harness.run_random
   prop = 'C20'
   name = 'poolops'
 
